@@ -44,6 +44,10 @@ for _s in ("andor", "cut", "not", "print", "lists", "alias", "time"):
                                 invariants=SOLVER_INV, properties=SOLVER_PROPS, constraint="WithinBudget",
                                 timeout={"quick": 1200, "thorough": 3600})
 
+JOBS["solver-deep"] = dict(module="MC_Solver", constants=dict(SOLVER_CONST, Slice="deep", Depth=130, MaxSteps=20000, ReAsks=1), subst=BIP_SUBST,
+                           invariants=SOLVER_INV, properties=SOLVER_PROPS, constraint="WithinBudget", java="-Xss1g",
+                           timeout={"quick": 1200, "thorough": 3600})
+
 for _s in ("terms", "goals", "strings", "mutants"):
     JOBS["syntax-" + _s] = dict(module="MC_Syntax", constants={"Slice": _s}, invariants=["Emit"], subst={"AtomCodes": "AtomCodesDef", "FmtPieces": "FmtPiecesDef"},
                                 timeout={"quick": 900, "thorough": 3600})
@@ -79,7 +83,7 @@ UNIFY_ASSUME = [
 ]
 
 PROPS = {
-    "C01": dict(jobs=["solver-andor", "solver-lists", "solver-alias", "trace-solver"], level="model_checking",
+    "C01": dict(jobs=["solver-andor", "solver-lists", "solver-alias", "solver-deep", "trace-solver"], level="model_checking",
                 rule="every program of the slice grammars (base facts + 1-3 clauses whose bodies combine calls, =, ==, conjunction, disjunction, nested and/or; the recursive list programs; the aliasing programs) x queries, each asked until 'no more'; "
                      "TLC checks that the solution-node machine of Solver.tla refines the declarative search of SLD.tla (Refines) and the real engine must observe the same answers in the same order; solve_all must report them as `$Var = value`",
                 assumptions=["programs whose reference search exceeds the call-depth budget or needs an occurs check are outside the claim (counted under excluded_cases)"]),
@@ -93,7 +97,7 @@ PROPS = {
                 rule="print / print_list / nl placed left and right of multi-answer, failing and negated goals; real stdout between successive answers is compared with the reference search's text; "
                      "plus single print / print_list / nl calls over 8 format strings (0-3 markers at every position) x argument tuples (atoms, integers, bound variables, chains) and concatenation without markers",
                 assumptions=["only atoms and small integers are printed (given literally or bound); format strings with k markers have k arguments or none"]),
-    "C05": dict(jobs=["solver-not", "solver-cut", "solver-andor", "solver-print", "solver-alias", "solver-lists", "trace-solver"], level="model_checking",
+    "C05": dict(jobs=["solver-not", "solver-cut", "solver-andor", "solver-print", "solver-alias", "solver-lists", "solver-time", "trace-solver"], level="model_checking",
                 rule="every program/query of the solver slices, asked 2 more times after the first 'no more' (answers and output)",
                 assumptions=[]),
     "C11": dict(jobs=["solver-andor", "solver-alias", "solver-lists", "solver-print", "solver-not", "solver-cut"], level="model_checking",
